@@ -189,6 +189,9 @@ pub enum Action {
     EmulateCloneOk,
     KillBefore,
     KillAfter,
+    /// hold the calling thread at the entry of this call for that many milliseconds of wall-clock time
+    /// (everybody else keeps running): exposes timeouts and "quiet period" assumptions
+    Delay(u64),
 }
 
 #[derive(Clone, Debug, Serialize, Deserialize, PartialEq)]
@@ -308,6 +311,8 @@ enum TState {
     Held,
     /// called sched_yield; parked until somebody else makes progress
     Yielded,
+    /// deliberately delayed by a Delay rule until a deadline; does not count as runnable
+    Delayed,
     Dead,
 }
 
@@ -329,6 +334,7 @@ struct Th {
     pending_kill_after: bool,
     /// signal to deliver when a held thread is released
     pending_sig: i32,
+    delay_until: Option<Instant>,
 }
 
 #[derive(Clone, Debug)]
@@ -763,6 +769,7 @@ impl Sup {
             pending_ret0: false,
             pending_kill_after: false,
             pending_sig: 0,
+            delay_until: None,
         });
         self.by_tid.insert(tid, idx);
         idx
@@ -869,6 +876,12 @@ impl Sup {
                     }
                 }
             }
+        }
+        let due: Vec<usize> = self.threads.iter().filter(|t| t.state == TState::Delayed && t.delay_until.map(|u| now >= u).unwrap_or(true)).map(|t| t.idx).collect();
+        for i in due {
+            self.threads[i].delay_until = None;
+            self.resume_or_hold(i);
+            changed = true;
         }
         let mut to_release = vec![];
         for t in self.threads.iter() {
@@ -1043,6 +1056,10 @@ impl Sup {
                         ev.act = Some("kill-after".into());
                         self.threads[i].pending_kill_after = true;
                     }
+                    Action::Delay(ms) => {
+                        ev.act = Some(format!("delay {}ms", ms));
+                        self.threads[i].delay_until = Some(Instant::now() + Duration::from_millis(ms));
+                    }
                 }
             }
             let keep = self.spec.log_all
@@ -1070,6 +1087,12 @@ impl Sup {
                     self.low_prio -= 1;
                     self.threads[i].prio = self.low_prio;
                 }
+            }
+            if self.threads[i].delay_until.is_some() {
+                self.threads[i].state = TState::Delayed;
+                self.threads[i].since = Instant::now();
+                self.reschedule();
+                return;
             }
             if sys == Sys::Yield && self.scheduling() {
                 // park: others may proceed
